@@ -491,7 +491,7 @@ pub fn run(args: &Args) -> Report {
             Cfg { rwnd: (3, 2), cap: 2, variant: 1 },
         ]
     } else {
-        vec![Cfg { rwnd: (2, 1), cap: 1, variant: 1 }]
+        vec![Cfg { rwnd: (2, 2), cap: 0, variant: 0 }]
     };
     for cfg in cfgs {
         cases.push(Case { try_unbounded: false, max_k: u32::MAX, label: format!("busy scenario rwnd={:?} cap={} variant={}", cfg.rwnd, cfg.cap, cfg.variant), exec: Box::new(move |r| exec(&cfg, r)) });
@@ -505,7 +505,7 @@ pub fn run(args: &Args) -> Report {
         ks: if thorough { vec![0, 1, 2] } else { vec![0, 1] },
         env: 0,
         fault: 1,
-        total_wall: Duration::from_secs(if thorough { 1800 } else { 45 }),
+        total_wall: Duration::from_secs(if thorough { 1800 } else { 40 }),
         max_execs_per_case: 20_000_000,
         required_witnesses: W_LATE_OPS | W_BUDGET_YIELD | W_FAULT_TAKEN | W_FAULT_WITH_BLOCKED_WRITER | W_FAULT_WITH_PENDING_OPEN | W_FAULT_WITH_PENDING_BIND | W_DROP_FLUSHED_DATA | W_BROKEN_PIPE | W_CLOSED_SEEN,
         witness_names: &[
